@@ -54,7 +54,7 @@ REQUIRED = ["trees", "length_checked", "branch_features_checked", "path_features
             "frontend_tree_checked", "frontend_population_checked", "population_padding_checked",
             "frontend_requeried",
             "single_node_trees", "root_is_tip_or_one_child", "tap_sholl_get", "tap_features_get"]
-FLOOR = {"quick": 700, "thorough": 14000}
+FLOOR = {"quick": 500, "thorough": 10000}
 SHARDS = {"quick": 8, "thorough": 16}
 TIMEOUT = {"quick": 400, "thorough": 3000}
 TOL = 1e-4
